@@ -464,6 +464,10 @@ def plan_result(outcomes, base):
 def classify_pair(r1, r2, first_rejected_order):
     """Name the known shapes of asymmetry precisely; anything else gets a generic signature."""
     kinds = {r1[0], r2[0]}
+    if r1[0] == "tree" and r2[0] == "tree" and r1[1] == r2[1]:
+        t1, t2 = r1[2].rstrip("/") + "/", r2[2].rstrip("/") + "/"
+        if t1 != t2 and (t1.startswith(t2) or t2.startswith(t1)):
+            return "pair-asymmetry:same-creator-nested-trees-child-first-rejected"
     for a, b in ((r1, r2), (r2, r1)):
         if a[0] == "glob" and b[0] in ("define", "amend"):
             prods = (b[4] + b[5]) if b[0] == "define" else (b[3] + b[4])
@@ -718,4 +722,5 @@ CORPUS_PAIRS = [
     ([], ("tree", "B", "d"), ("amend", "A", [], ["d"], [])),
     ([], ("tree", "B", "d"), ("static", "A", ["d"])),
     ([], ("tree", "B", "d"), ("amend", "A", ["d"], [], [])),
+    ([], ("tree", "B", "d"), ("tree", "B", "d/sub")),
 ]
